@@ -13,6 +13,9 @@ mod c09;
 mod fast;
 mod c10;
 mod c12;
+mod c13;
+mod c14;
+mod c15;
 mod zipx;
 mod c17;
 mod c18;
@@ -33,6 +36,11 @@ fn main() {
         "c09" => c09::run(&args),
         "c10" => c10::run(&args),
         "c12" => c12::run(&args),
+        "c13save" => c13::save_cmd(&args),
+        "c13loop" => c13::loop_cmd(&args),
+        "c13sink" => c13::sink_cmd(&args),
+        "c14" => c14::run(&args),
+        "c15" => c15::run(&args),
         "c17" => c17::run(&args),
         "c18" => c18::run(&args),
         "c19" => c19::run(&args),
